@@ -322,8 +322,21 @@ pub fn gen(rng: &mut Rng, tables: &[Table], fam: Family) -> Option<Stmt> {
                 items.push(if rng.coin() { format!("{a} AS a{i}") } else { a });
             }
             let wh = opt_where(rng, t, q);
+            // HAVING forms whose verdict is scattered over the groups in key order (a group that
+            // fails may sort ahead of one that passes), drawn from a forked stream
+            let mut hr = rng.fork(0x4a71);
+            let scattered = |hr: &mut Rng| match hr.below(3) {
+                0 => format!(" HAVING MIN({q}id) % 3 = 0"),
+                1 => format!(" HAVING SUM({q}id) % 2 = 1"),
+                _ => format!(" HAVING MAX({q}id) % 4 < 2 AND COUNT(*) > 0"),
+            };
             let having = if rng.chance(1, 4) {
-                format!(" HAVING COUNT(*) > {}", rng.usize(4))
+                let c = rng.usize(4);
+                if hr.coin() {
+                    scattered(&mut hr)
+                } else {
+                    format!(" HAVING COUNT(*) > {c}")
+                }
             } else {
                 String::new()
             };
@@ -340,6 +353,11 @@ pub fn gen(rng: &mut Rng, tables: &[Table], fam: Family) -> Option<Stmt> {
                 order_keys = (0..gnames.len()).collect();
                 if rng.chance(1, 2) {
                     sql.push_str(&limit_clause(rng, 12));
+                    // a page of the groups that survive HAVING
+                    if having.is_empty() && hr.chance(1, 3) {
+                        let h = scattered(&mut hr);
+                        sql = sql.replacen(" ORDER BY ", &format!("{h} ORDER BY "), 1);
+                    }
                 }
             }
             let mut features = dup_feature(&items);
@@ -539,6 +557,19 @@ pub fn gen(rng: &mut Rng, tables: &[Table], fam: Family) -> Option<Stmt> {
                 } else {
                     wh
                 };
+                // one plain join in six is a page sorted by a QUALIFIED column of the right side
+                // whose bare name is also the output name of a left-side item (`SELECT a.id,
+                // b.id AS b_tail .. ORDER BY b.id, a.id LIMIT n`): (a.id, b.id) is unique per
+                // joined pair, so the page is determined
+                let mut tq = rng.fork(0x7a11);
+                let tail_sorted = !three && !exists_sorted && fam != Family::SelfJoin && tq.chance(1, 6);
+                let wh = if tail_sorted {
+                    items.push("a.id".to_string());
+                    items.push("b.id AS b_tail".to_string());
+                    format!("{wh} ORDER BY b.id{}, a.id{} LIMIT {}", dir(&mut tq), dir(&mut tq), 1 + tq.usize(30))
+                } else {
+                    wh
+                };
                 Some(Stmt {
                     sql: format!("SELECT {} FROM {from}{wh}", items.join(", ")),
                     family: if fam == Family::SelfJoin { "self_join" } else { "join" },
@@ -554,6 +585,9 @@ pub fn gen(rng: &mut Rng, tables: &[Table], fam: Family) -> Option<Stmt> {
                         }
                         if exists_sorted {
                             f.push("exists_and_two_sided_order_by".to_string());
+                        }
+                        if tail_sorted {
+                            f.push("page_sorted_by_qualified_tail".to_string());
                         }
                         f
                     },
